@@ -41,6 +41,7 @@ RULES = {
     'OH-scission': '[O:1][H:2]>>[O:1].[H:2]',
     'CO-scission': '[C:1][O:2]>>[C:1].[O:2]',
     'C=C-to-C-C': '[C:1]=[C:2]>>[C:1][C:2]',
+    'C-C-to-C=C': '[C:1][C:2]>>[C:1]=[C:2]',      # most of its products are over-valent and must be filtered one by one
     'ring:CH-scission': RING_CH, 'ring:CC-scission': RING_CC, 'ring:OH-scission': RING_OH,
     'ring:C=C-decrease': RING_DB,
 }
@@ -177,6 +178,11 @@ def run(ctx):
     combos.append((['C=C'], ['C=C-to-C-C', 'CH-scission']))
     combos.append((['CO'], ['OH-scission', 'CO-scission', 'CH-scission']))
     combos.append((['CCO'], ['ring:OH-scission', 'ring:CC-scission']))
+    # valid and over-valent products of one rule application, in both orders
+    combos.append((['[CH2][CH]C'], ['C-C-to-C=C']))
+    combos.append((['C[CH][CH2]'], ['C-C-to-C=C']))
+    combos.append((['[CH2][CH]C', 'CC'], ['C-C-to-C=C', 'CC-scission']))
+    combos.append((['[CH2]C[CH2]'], ['C-C-to-C=C', 'C=C-to-C-C']))
     for _ in range(60 if thorough else 10):
         seeds = rng_.sample(SEEDS[:8], rng_.choice([1, 1, 2]))
         rules = rng_.sample(names, rng_.choice([1, 2, 3]))
